@@ -1351,7 +1351,8 @@ class _AlwaysSortable(object):
     __slots__ = ('value', )
 
     def __init__(self, value):
-        self.value = value
+        # A comment attached to a key does not change where it sorts.
+        self.value = unwrap_comments(value)[0]
 
     def sortable_value(self):
         # Like pprint._safe_key: by type name, then identity of the key
